@@ -3361,6 +3361,8 @@ impl Zeroconf {
                     out.add_question(q.entry_name(), q.entry_type());
                 }
                 out.clear_cache_flush_bits();
+                // A legacy unicast response must repeat the query ID.
+                out.set_unicast();
             }
 
             if let Err(InternalError::IntfAddrInvalid(intf_addr)) = send_dns_outgoing(
